@@ -196,3 +196,22 @@ impl<T: RFBound> LiftableCombiner<T, PRAcc<T>, Vec<T>> for PriorityReservoir<T> 
         acc
     }
 }
+
+#[cfg(feature = "verif-hooks")]
+impl<T: Clone> PRAcc<T> {
+    /// Verification accessor (read-only): for every store slot, `None` for a tombstone, else the bit
+    /// pattern of the slot's priority, its insertion counter and its value.
+    #[must_use]
+    pub fn verif_slots(&self) -> Vec<Option<(u64, u64, T)>> {
+        self.store
+            .iter()
+            .map(|s| s.as_ref().map(|(p, q, v)| (p.0.to_bits(), *q, v.clone())))
+            .collect()
+    }
+
+    /// Verification accessor (read-only): `(k, seq, alive, heap.len())`.
+    #[must_use]
+    pub fn verif_counters(&self) -> (usize, u64, usize, usize) {
+        (self.k, self.seq, self.alive, self.heap.len())
+    }
+}
